@@ -12,6 +12,8 @@ mod lru_cache;
 mod page_manager;
 mod region;
 mod savepoint;
+#[cfg(redb_verif)]
+mod verif;
 #[allow(clippy::pedantic, dead_code)]
 mod xxh3;
 
@@ -30,3 +32,5 @@ pub(crate) use savepoint::SerializedSavepoint;
 
 pub(super) use base::{PageImpl, PageMut};
 pub(super) use xxh3::hash128_with_seed;
+#[cfg(redb_verif)]
+pub use verif::{VerifBuddyAllocator, VerifRegionTracker};
